@@ -23,7 +23,7 @@ class Canon(Obligation):
     def __init__(self,maxlen=2,seed=0,known=(),rate=25,**kw):
         self.maxlen=maxlen; self.seed=seed; self.rate=rate
         self.bounds={'strings_and_keys':'0..%d free ASCII bytes (every control character, quote, backslash, DEL) plus fixed non-ASCII samples (U+00E9, U+2028, U+1F600)'%maxlen,
-                     'numbers':'PosInt(any u64), NegInt(any negative i64), Float','containers':'arrays and objects up to 2 members, one level of nesting, empty containers; object keys free (distinct) so every relative order occurs',
+                     'numbers':'PosInt(any u64), NegInt(any negative i64), Float','containers':'arrays and objects up to 2 members, one level of nesting, empty containers; object keys free (distinct) so every relative order occurs; fixed key sets mixing ASCII, Latin-1, high-BMP (U+E000..U+FFFF) and supplementary-plane characters',
                      'source_text':'the claim starts at the parsed serde_json::Value (text -> Value is serde_json\'s parser); serde_json::Map is a BTreeMap (no preserve_order)'}
         self.witnesses=['string_roundtrip','posint','negint','float_rejected','object_sorted','escape_control']; self.seen=set()
     def setup(self,eng,tier):
@@ -33,7 +33,9 @@ class Canon(Obligation):
         N=self.maxlen
         def S(name,maxn=N):
             n=run.pick(maxn+1,'len_'+name); return StringO(sbytes(run,name,n))
-        k=run.pick(15,'shape')
+        k=run.pick(16,'shape')
+        # supplementary-plane vs. high-BMP keys: code-point (= UTF-8 byte) order differs from UTF-16 code-unit order
+        if k==15: return jobj([('\U0001F600',jnull()),('\ufffd',jnull()),('\ue000',jnum('PosInt',Int(64,False,1))),('\U00010000',jnull()),('z',jobj([('\uff5e',jnull()),('\U00020000',jnull())]))]),False
         if k==0: return jstr(S('s')),False
         if k==1:
             c=['é',' ','\U0001F600','\x7f','aé'][run.pick(5,'sample')]
